@@ -71,9 +71,9 @@ theorem isWordChar_notDelim (c : Char) (h : isWordChar c = true) : isDelim c = f
     rcases hd with (((((((((h1 | h1) | h1) | h1) | h1) | h1) | h1) | h1) | h1) | h1) | h1 <;> subst h1 <;> revert h <;> decide
 
 theorem isAlpha_notNumStart (c : Char) (h : isAlpha c = true) :
-    isDig c = false ∧ (c == '-') = false ∧ (c == '+') = false ∧ (c == '.') = false := by
+    isDig c = false ∧ (c == '-') = false ∧ (c == '+') = false := by
   simp only [isAlpha, Bool.or_eq_true, Bool.and_eq_true, decide_eq_true_eq, beq_iff_eq] at h
-  refine ⟨?_, ?_, ?_, ?_⟩
+  refine ⟨?_, ?_, ?_⟩
   · cases hd : isDig c with
     | false => rfl
     | true =>
@@ -117,7 +117,7 @@ theorem tokValue_num (tok : List Char) (j : J)
     · have := isDig_toNat c hd
       refine ⟨?_, ?_, ?_⟩ <;> (intro e; subst e; simp at this)
     · decide
-  have hstart : (isDig c || c == '-' || c == '+' || c == '.') = true := by
+  have hstart : (isDig c || c == '-' || c == '+') = true := by
     rcases hcd with hd | rfl
     · simp [hd]
     · decide
@@ -129,8 +129,8 @@ theorem tokValue_bare (cs : List Char) (h : bareOk cs = true) : tokValue cs = .o
   cases cs with
   | nil => simp at hhead
   | cons c tl =>
-    obtain ⟨d1, d2, d3, d4⟩ := isAlpha_notNumStart c hhead
-    simp only [tokValue, h1, h2, h3, if_false, d1, d2, d3, d4, Bool.or_self, Bool.false_eq_true]
+    obtain ⟨d1, d2, d3⟩ := isAlpha_notNumStart c hhead
+    simp only [tokValue, h1, h2, h3, if_false, d1, d2, d3, Bool.or_self, Bool.false_eq_true]
 
 theorem bareOk_notDelim (cs : List Char) (h : bareOk cs = true) : cs.all (fun c => !isDelim c) = true ∧ cs ≠ [] := by
   simp only [bareOk, Bool.and_eq_true] at h
